@@ -5,7 +5,7 @@ use crate::erased::{with_stack, Ad, DynTarget, Visitor};
 use crate::runner::guarded;
 use crate::scen::DevCfg;
 use crate::workload::{draw_spec, DrawableSpec, Path};
-use embedded_graphics::pixelcolor::{BinaryColor, Rgb565, Rgb888};
+use embedded_graphics::pixelcolor::{BinaryColor, Gray2, Gray4, Gray8, Rgb565, Rgb888};
 use embedded_graphics::primitives::Rectangle;
 
 pub struct RunCfg<'a> {
@@ -63,14 +63,28 @@ fn run_typed<C: SimColor>(cfg: &RunCfg, spec: &DrawableSpec, path: Path) -> Draw
     }
 }
 
-/// `dev_kind` must be one of the colour-conversion chain: Binary, Rgb565, Rgb888.
 pub fn run_drawable(cfg: &RunCfg, spec: &DrawableSpec, path: Path) -> DrawRun {
     match cfg.dev_kind {
         ColorKind::Binary => run_typed::<BinaryColor>(cfg, spec, path),
         ColorKind::Rgb565 => run_typed::<Rgb565>(cfg, spec, path),
         ColorKind::Rgb888 => run_typed::<Rgb888>(cfg, spec, path),
-        other => panic!("unsupported device colour kind {:?}", other),
+        ColorKind::Gray2 => run_typed::<Gray2>(cfg, spec, path),
+        ColorKind::Gray4 => run_typed::<Gray4>(cfg, spec, path),
+        ColorKind::Gray8 => run_typed::<Gray8>(cfg, spec, path),
+        ColorKind::C32 => run_typed::<crate::dev::C32>(cfg, spec, path),
     }
 }
 
 pub const CHAIN_KINDS: [ColorKind; 3] = [ColorKind::Binary, ColorKind::Rgb565, ColorKind::Rgb888];
+
+/// Device colour for drawable workloads: mostly the three kinds of the colour-conversion chain,
+/// sometimes one of the other four (2, 4, 8 and 32 bits per pixel).
+pub fn gen_dev_kind(src: &mut crate::rng::Src) -> ColorKind {
+    match src.draw(8) {
+        0 | 1 => ColorKind::Binary,
+        2 | 3 => ColorKind::Rgb565,
+        4 | 5 => ColorKind::Rgb888,
+        6 => [ColorKind::Gray2, ColorKind::Gray4][src.draw(2) as usize],
+        _ => [ColorKind::Gray8, ColorKind::C32][src.draw(2) as usize],
+    }
+}
